@@ -20,7 +20,7 @@ def run(env, rep):
         "splitting loop of serialize is a counted loop whose stride (the chunk size) is >= 1 under that invariant, so it "
         "terminates; R3: the payload-length limit (<= 16 777 215) holds at every call that emits the length; R4: no public "
         "function of the API types has an undischarged panic site (C03 R1 with the whole public API as entry set); R6: an accepted chunk size takes effect only after it was announced under the old "
-        "size (C07 R5) - otherwise small sizes are accepted but not honoured; R7 (= C04 R1-R2): AMF0 strings and property names whose byte length does not fit the u16 length field are refused, "
+        "size (C07 R5) - otherwise small sizes are accepted but not honoured; R8 (= C03 R3 over the whole public API): no size passed to an allocating call exceeds one maximum-size message unless it is the length of data already held (an accepted chunk size of 2^31-1 must not reserve 2 GiB); R9 (= C16 R1): partial messages are kept per chunk stream also across type-0 continuation chunks, which the library's own forced messages produce for chunk sizes below their length.  R7 (= C04 R1-R2): AMF0 strings and property names whose byte length does not fit the u16 length field are refused, "
         "not truncated (every narrowing cast in the encoder has its source inside the target type), and the reserved name length 0 is not emitted.  Not decided: "
         "that every accepted value yields a working codec or session.")
     rep.assumptions = ["fields are only written by the crate that declares them (privacy is enforced by rustc)"]
@@ -128,3 +128,11 @@ def run(env, rep):
     if wants(rep, "C19.R7"):
         from . import C04
         C04.run(env, PrefixReport(rep, "C04.", "C19.R7.", only=("C04.R1", "C04.R2")))
+    # ------------------------------------------------------------------ R8: no accepted value sizes an allocation beyond one message
+    if wants(rep, "C19.R8"):
+        api_bodies = analysable_bodies(prog, reachable(prog, api_entries(prog, rep, "C19.R8")))
+        loops.allocation_sizes(env, rep, "C19.R8", api_bodies)
+    # ------------------------------------------------------------------ R9: small accepted chunk sizes still give a working codec
+    if wants(rep, "C19.R9"):
+        from . import C16
+        C16.run(env, PrefixReport(rep, "C16.R1", "C19.R9", only=("C16.R1",)))
